@@ -102,6 +102,7 @@ type fnTrans struct {
 	modAll    bool
 	retCount int
 	usedSpecFuncs map[string]bool
+	curPos token.Pos
 }
 
 type writeRange struct {
@@ -129,12 +130,17 @@ func (t *fnTrans) global(name string, s Sort) *Cell {
 }
 
 func typeKey(t types.Type) string {
+	if b, ok := t.(*types.Basic); ok {
+		t = types.Typ[b.Kind()] // byte == uint8, rune == int32
+	}
 	s := types.TypeString(t, func(p *types.Package) string { return p.Name() })
 	return sanitize(s)
 }
 
 func (t *fnTrans) mem(elem types.Type) *Cell {
-	return t.global("M_"+typeKey(elem), ArrayOf(t.th.Addr(), t.th.SortOf(elem)))
+	c := t.global("M_"+typeKey(elem), ArrayOf(t.th.Addr(), t.th.SortOf(elem)))
+	t.cellTyp[c.Name] = elem
+	return c
 }
 
 func (t *fnTrans) heap(st *types.Named, idx int) *Cell {
@@ -259,6 +265,7 @@ func (f *frame) check(cond Expr, kind string) {
 			name = "no-panic/" + strings.TrimSuffix(f.prefix, "$") + "/" + kind
 		}
 		t.cur.Assert(cond, name, t.fc.Props)
+		t.cur.Cmds[len(t.cur.Cmds)-1].Meta = map[string]string{"pos": t.posString()}
 		return
 	}
 	cont := t.proc.NewBlock("cont")
@@ -581,9 +588,20 @@ func rpo(fn *ssa.Function) []*ssa.BasicBlock {
 
 func (f *frame) varName(a *ssa.Alloc) string { return a.Comment }
 
+func (t *fnTrans) posString() string {
+	if !t.curPos.IsValid() {
+		return ""
+	}
+	p := t.eng.fset.Position(t.curPos)
+	return fmt.Sprintf("%s:%d:%d", p.Filename, p.Line, p.Column)
+}
+
 func (f *frame) instr(in ssa.Instruction) {
 	t := f.t
 	th := t.th
+	if p := in.Pos(); p.IsValid() {
+		t.curPos = p
+	}
 	switch x := in.(type) {
 	case *ssa.DebugRef:
 		return
